@@ -23,7 +23,7 @@ func init() {
 		ID:    "C11",
 		Level: "fault_enumeration",
 		Rule: "request scripts (attach, walks onto new fids, in-place walk, open of file and directory, read, create, clunk, remove) are played by a raw 9P client against p9p.ServeConn(SSession(SFileSys(instrumented FS))) on a fault-injecting in-memory connection; a prologue completes request by request, then an in-flight set is sent whose handlers park inside their FS call. " +
-			"A fault-free recording gives B inbound bytes and W outbound writes; then ONE fault per run is injected at EVERY index: read error at every inbound byte k in [0,B], peer EOF at every byte k, failure of every reply write j (at once, and with the failing write parked until two further completions are queued behind it), serving-context cancel after every reply count, and serving-context cancel while reply write j is stalled inside the connection's Write (the writer goroutine cannot notice the cancellation); one script runs against a file system that requires authentication and has two auth fids outstanding at the fault; " +
+			"A fault-free recording gives B inbound bytes and W outbound writes; then ONE fault per run is injected at EVERY index: read error at every inbound byte k in [0,B], peer EOF at every byte k, failure of every reply write j (at once, and with the failing write parked until two further completions are queued behind it), serving-context cancel after every reply count, and serving-context cancel while reply write j is stalled inside the connection's Write (the writer goroutine cannot notice the cancellation); one script runs against a file system that requires authentication and has two auth fids outstanding at the fault, one has a flushed request whose handler ignores the cancellation, its tag reused by a new in-flight request, and the flushed handler completing late; " +
 			"each x in-flight handlers that {return an error when cancelled, finish their FS call successfully right after being cancelled, had already finished}. Oracle at quiescence (goroutine states): every in-flight handler's ctx is Done; ServeConn has returned; Handler.Stop ran exactly once; afterwards the fid table (verif hook) holds no bound entry, " +
 			"every handle the FS handed out for binding was released exactly once (no leak, no double release, no use after release — including entries bound by handlers that finished after the cancellation); the worker process did not crash. non-trivial = >= 1 handler in flight at the fault; distinct by (script, fault kind, index, in-flight behaviour)",
 		Assumptions: []string{
@@ -37,7 +37,7 @@ func init() {
 		Shards:    shards(8, 16),
 		Timeout:   timeouts(4*time.Minute, 40*time.Minute),
 		MinEvals:  200,
-		Required:  []string{"fault:read-error", "fault:read-eof", "fault:write-fail", "fault:write-fail-parked", "fault:ctx-cancel", "fault:ctx-cancel-writer-busy", "read_error_as_net_error", "ctx_cancelled_while_writer_busy", "auth_fids_at_stop", "inflight:error-on-cancel", "inflight:succeed-after-cancel", "inflight:none", "handlers_in_flight_at_fault", "ctx_done_checks", "serve_returned", "stop_once", "tables_empty", "entries_bound_after_cancel"},
+		Required:  []string{"fault:read-error", "fault:read-eof", "fault:write-fail", "fault:write-fail-parked", "fault:ctx-cancel", "fault:ctx-cancel-writer-busy", "read_error_as_net_error", "late_completion_of_flushed_request", "ctx_cancelled_while_writer_busy", "auth_fids_at_stop", "inflight:error-on-cancel", "inflight:succeed-after-cancel", "inflight:none", "handlers_in_flight_at_fault", "ctx_done_checks", "serve_returned", "stop_once", "tables_empty", "entries_bound_after_cancel"},
 		Run:       runC11,
 	})
 }
@@ -89,6 +89,10 @@ func (o *obsHandler) Stop(err error) error {
 type c11step struct {
 	msg  p9p.Message
 	park bool // the handler parks in its FS call (in-flight set)
+
+	tag             p9p.Tag // explicit tag (0 = the running counter)
+	stubborn        bool    // the parked FS call ignores cancellation: it returns only when released
+	releaseStubborn bool    // pseudo-step: the stubborn calls are released now (a late completion)
 }
 
 func c11Scripts() [][]c11step {
@@ -132,7 +136,17 @@ func c11Scripts() [][]c11step {
 		P(p9p.MessageTwalk{Fid: 0, Newfid: 11, Wnames: []string{"d", "e"}}),
 		P(p9p.MessageTattach{Fid: 10, Afid: nofid, Uname: "u"}),
 	}
-	return [][]c11step{s1, s2, s3, s4}
+	// s5: a request is flushed while its handler (which ignores cancellation) is still inside the file
+	// system, its tag is reused by a new request, then the flushed handler completes late; further
+	// requests stay in flight. Whatever the fault, the NEW request's handler must be cancelled.
+	s5 := append(append([]c11step{}, base...),
+		c11step{msg: p9p.MessageTwalk{Fid: 0, Newfid: 11, Wnames: []string{"d", "e"}}, park: true, stubborn: true, tag: 700},
+		T(p9p.MessageTflush{Oldtag: 700}),
+		c11step{msg: p9p.MessageTattach{Fid: 10, Afid: nofid, Uname: "u"}, park: true, tag: 700},
+		c11step{releaseStubborn: true},
+		P(p9p.MessageTwalk{Fid: 0, Newfid: 12}),
+	)
+	return [][]c11step{s1, s2, s3, s4, s5}
 }
 
 const (
@@ -165,6 +179,8 @@ type c11run struct {
 	behave             int
 	parkedN            int
 	releases           []chan struct{}
+	stubborn           []chan struct{}
+	stubbornNext       bool
 	afterCancelSuccess int
 }
 
@@ -175,6 +191,14 @@ func (r *c11run) gate(c *fsx.Call) {
 		return
 	}
 	rel := make(chan struct{})
+	if r.stubbornNext {
+		// this call belongs to the stubborn step: it does not look at its context
+		r.stubbornNext = false
+		r.stubborn = append(r.stubborn, rel)
+		r.gmu.Unlock()
+		<-rel
+		return
+	}
 	r.releases = append(r.releases, rel)
 	r.parkedN++
 	behave := r.behave
@@ -194,10 +218,23 @@ func (r *c11run) gate(c *fsx.Call) {
 
 func (r *c11run) releaseAll() {
 	r.gmu.Lock()
+	for _, ch := range r.stubborn {
+		close(ch)
+	}
+	r.stubborn = nil
 	for _, ch := range r.releases {
 		close(ch)
 	}
 	r.releases = nil
+	r.gmu.Unlock()
+}
+
+func (r *c11run) releaseStubborn() {
+	r.gmu.Lock()
+	for _, ch := range r.stubborn {
+		close(ch)
+	}
+	r.stubborn = nil
 	r.gmu.Unlock()
 }
 
@@ -221,7 +258,7 @@ func newC11(w *mon.W, script []c11step, desc string) *c11run {
 		r.fs = fsx.New()
 		r.fs.Gate = r.gate
 		for _, st := range script {
-			if _, ok := st.msg.(p9p.MessageTauth); ok {
+			if _, ok := st.msg.(p9p.MessageTauth); ok && st.msg != nil {
 				r.fs.AuthRequired = true
 			}
 		}
@@ -277,13 +314,28 @@ func (r *c11run) play(f *c11fault) {
 		if f != nil && f.kind == "ctx-cancel" && replies == f.index && !st.park {
 			break
 		}
+		if st.releaseStubborn {
+			r.releaseStubborn()
+			if !settle() {
+				r.w.Inconclusive("watchdog")
+				return
+			}
+			r.w.Count("late_completion_of_flushed_request", 1)
+			replies += len(r.h.take())
+			continue
+		}
 		if st.park {
 			r.gmu.Lock()
 			r.parking = true
+			r.stubbornNext = st.stubborn
 			r.gmu.Unlock()
 		}
 		before := r.obs.inFlight()
-		r.h.send(&p9p.Fcall{Type: st.msg.Type(), Tag: tag, Message: st.msg})
+		useTag := tag
+		if st.tag != 0 {
+			useTag = st.tag
+		}
+		r.h.send(&p9p.Fcall{Type: st.msg.Type(), Tag: useTag, Message: st.msg})
 		tag++
 		sent++
 		if !settle() {
@@ -382,6 +434,9 @@ func c11Offsets(script []c11step, dense int) []int {
 	off := 0
 	inflight := false
 	for _, st := range script {
+		if st.msg == nil {
+			continue
+		}
 		n := len(refcodec.MustFrame(&p9p.Fcall{Type: st.msg.Type(), Tag: 1, Message: st.msg}))
 		if st.park {
 			inflight = true
@@ -500,6 +555,9 @@ func c11Run(w *mon.W, script []c11step, si int, f *c11fault) {
 			r.h.cli.CloseWrite()
 		}
 	}
+	// the property's proviso: handlers return once cancelled. The stubborn handler (which
+	// ignores its context until released) is let go now, after the fault.
+	r.releaseStubborn()
 	q := mon.AwaitQuiesce(r.h.serveDone)
 	if q.Hung {
 		r.bad("hang", "serve-did-not-return:"+f.kind+":"+q.Sites, "ServeConn has not returned although the process is quiescent after the fault; blocked at %s", q.Sites)
